@@ -183,6 +183,23 @@ def run(ctx):
             ctx.check(ok, f"{P}.P5", g.site, "tasks are generated per np.unique(files) of the first plotfile, like "
                                              "the scatter map", f"{g.qualname} iterates {pl.table if pl else None}",
                       key=f"{mode}:unique")
+            # SIDE-COH: where side 2 is addressed per box, its file list and its offset list are the per-box
+            # selections of plotfile 2's own tables by the *same* box index array (the file group's box ids)
+            if forms and "offst_r2" in forms and isinstance(forms.get("bfile_r2"), str):
+                import re as _re
+                o2, f2 = forms["offst_r2"], forms["bfile_r2"]
+                mo = _re.fullmatch(r"SEL\(other\.cells\[lv\]\['offsets'\],(.+)\)", o2)
+                sel = mo.group(1) if mo else None
+                want_f = {f"MAP(os.path.join(os.getcwd(), •),SEL(other.cells[lv]['files'],{sel}))",
+                          f"SEL(other.cells[lv]['files'],{sel})"}
+                decidable = mo is not None and (f2 in want_f or f2.startswith(("MAP(", "SEL(", "REP(")))
+                ctx.decide(f2 in want_f, decidable, f"{P}.SIDE-COH", g.site,
+                           f"mode {mode}: box i of a file group takes plotfile 2's file and offset of the same box "
+                           f"(both selected by {sel})",
+                           f"mode {mode}: side 2's per-box offsets are {o2} but its per-box files are {f2}: every box "
+                           f"must take the file *and* the offset of its own box in plotfile 2 — when the boxes of one "
+                           f"file of plotfile 1 are spread over several files of plotfile 2 another box's data is merged",
+                           key=f"{mode}:side2-files", where=loc(g, pl.loop), objects={"files": f2, "offsets": o2})
             # P6: access kind <-> order
             for w in s.workers:
                 acc = access.get(w.qualname, {})
